@@ -1,4 +1,6 @@
 """C11 — cloning.  C11.rule (three-way Ref rewrite decision table), C11.copy (what a clone copies), C11.src (source untouched)."""
+import re
+
 from sa import core, decision, discipline as D
 from . import domutil as U
 from .domutil import DOM
@@ -34,9 +36,52 @@ def _chain(n):
     return list(reversed(names)), n
 
 
-def _clone_binding(pat, iterable):
-    """lid of the loop variable that holds the *clone* (the value of ref_rewrites)"""
+def copy_collections(prog):
+    """{field of CloneContext: 'map-value' | 'element'} — the collections clone_ref_as_builder adds the fresh referent of
+    every copy to: as the value of a map keyed by the original (`ref_rewrites.insert(original, new)`), or as an element
+    of a list (`cloned.push(new)`)."""
+    fn = prog.fn(DOM + "CloneContext::clone_ref_as_builder")
+    IB = "rbx_dom_weak::instance::InstanceBuilder::"
+    builders, news = set(), set()
+    for st in core.walk_lets(fn.body):
+        if "init" in st and st["pat"].get("k") == "Binding" and any(x.get("k") == "Call" and core.callee_generic(x) == IB + "new" for x in core.walk(st["init"])):
+            builders.add(st["pat"]["lid"])
+    for st in core.walk_lets(fn.body):
+        if "init" in st and st["pat"].get("k") == "Binding":
+            lid, path = core.place_root_lid(st["init"])
+            if lid in builders and path == ["referent"]:
+                news.add(st["pat"]["lid"])
+
+    def is_new(a):
+        a = core.strip(a)
+        if a.get("lid") in news:
+            return True
+        lid, path = core.place_root_lid(a)
+        return lid in builders and path == ["referent"]
+    out = {}
+    for n in core.walk_fn(fn):
+        if n.get("k") != "MethodCall" or not n["args"]:
+            continue
+        root, path = core.place_root(n["recv"])
+        fields = [q for q in path if not q.startswith(".")]
+        if root != "self" or len(fields) != 1:
+            continue
+        if n["m"] == "insert" and len(n["args"]) == 2 and is_new(n["args"][1]):
+            out[fields[0]] = "map-value"
+        elif n["m"] in ("push", "push_back") and is_new(n["args"][0]):
+            out[fields[0]] = "element"
+        elif n["m"] == "insert" and len(n["args"]) == 1 and is_new(n["args"][0]):
+            out[fields[0]] = "element"
+    return out
+
+
+def _clone_binding(pat, iterable, kind="map-value"):
+    """lid of the loop variable that holds the *clone* (the value of ref_rewrites, or an element of the list of copies)"""
     names, _ = _chain(iterable)
+    if kind == "element":
+        while pat.get("k") in ("Ref", "Deref") and isinstance(pat.get("p"), dict):
+            pat = pat["p"]
+        return pat["lid"] if pat.get("k") == "Binding" and set(names) <= {"iter", "into_iter", "copied", "cloned"} else None
     if pat.get("k") == "Tuple" and len(pat.get("pats", [])) == 2 and pat["pats"][1].get("k") == "Binding":
         return pat["pats"][1]["lid"]
     if pat.get("k") == "Binding" and ("values" in names or "into_values" in names):
@@ -51,9 +96,10 @@ def rule_rule(c, prog):
     c.rule(R, "rewrite_refs: per Ref value — mapped if in the cloned set (A); else kept iff the destination contained it before rewriting (B); else null; non-Ref values untouched; existing set computed before any rewrite, from dest.instances membership")
     fn = prog.fn(DOM + "CloneContext::rewrite_refs")
     loops = _for_loops(fn.body)
-    outer = [(n, f) for n, f in loops if "ref_rewrites" in core.place_root(f[1])[1]]
+    colls = copy_collections(prog)
+    outer = [(n, f) for n, f in loops if core.place_root(f[1])[0] == "self" and set(core.place_root(f[1])[1]) & set(colls)]
     if len(outer) != 2:
-        c.violation(R, "passes", f"rewrite_refs has {len(outer)} pass(es) over self.ref_rewrites; the rule `kept iff the destination contained it before rewriting` needs the set of pre-existing destination refs to be complete before the first value is rewritten, i.e. a collecting pass followed by a rewriting pass", fn.sp, instance="loops-over-ref_rewrites")
+        c.violation(R, "passes", f"rewrite_refs has {len(outer)} pass(es) over the copies recorded by clone_ref_as_builder ({sorted(colls)}); the rule `kept iff the destination contained it before rewriting` needs the set of pre-existing destination refs to be complete before the first value is rewritten, i.e. a collecting pass followed by a rewriting pass", fn.sp, instance="loops-over-ref_rewrites")
         return
     c.ok(R, "loops-over-ref_rewrites", 2)
     # role: the `existing` set = the set local that receives insert() / extend() in loop 1
@@ -217,7 +263,8 @@ def rule_rule(c, prog):
         c.violation(R, "pass1|table", f"the pre-existing-refs pass differs from `value in dest.instances => remember`; rows (conds, got, want): {diff}", core.loc(outer[0][0]), instance="pass1:table")
     # both passes look up the *clone* (value of ref_rewrites) in dest
     for idx, lp in enumerate((l1, l2)):
-        lid = _clone_binding(lp[0], lp[1])
+        fld = [q for q in core.place_root(lp[1])[1] if q in colls]
+        lid = _clone_binding(lp[0], lp[1], colls[fld[0]]) if fld else None
         used = None
         if lid is not None:
             for n in core.walk(lp[2]):
@@ -388,6 +435,27 @@ def rule_copy(c, prog):
             c.ok(R, f"{name}:parentless-root")
         else:
             c.violation(R, f"{name}|root-parent", f"{name}: the cloned root is not inserted with a null parent", f.sp, instance=f"{name}:parentless-root")
+        # every copy made by this call is visited by the rewrite passes.  The passes walk a collection filled by
+        # clone_ref_as_builder; when that collection is the map original -> copy, a second copy of the same original
+        # replaces the first, which is then never visited (its Refs keep pointing into the source).  Originals taken from
+        # the queue are distinct (a tree has no shared nodes); roots taken from a caller-supplied list need not be.
+        rwf = prog.fn(DOM + "CloneContext::rewrite_refs")
+        colls = copy_collections(prog)
+        visited = {q for _n, fl in _for_loops(rwf.body) if core.place_root(fl[1])[0] == "self" for q in core.place_root(fl[1])[1] if q in colls}
+        lossy = sorted(q for q in visited if colls[q] == "map-value")
+        plist = {lid for nm, (lid, ty) in core.param_lids(f).items() if re.search(r"\[rbx_types::referent::Ref\]|Vec<rbx_types::referent::Ref|IntoIterator|Iterator", ty or "")}
+        repeated = None
+        for n, fl in _for_loops(f.body):
+            lid, path = core.place_root_lid(fl[1])
+            if lid in plist and any(x.get("k") == "MethodCall" and x["m"] == "clone_ref_as_builder" for x in core.walk(fl[2])):
+                guard = any(y.get("k") in ("If", "Match") and y.get("src") not in ("ForLoopDesugar", "TryDesugar") and any(z.get("k") == "MethodCall" and z["m"] in ("contains", "contains_key", "insert", "get", "entry") for z in core.walk(y.get("c") or y.get("e") or {})) for y in core.walk(fl[2]))
+                if not guard:
+                    repeated = n
+        inst = f"{name}:every-copy-rewritten"
+        if repeated is not None and lossy:
+            c.violation(R, f"{name}|overlap", f"{name} clones one root per entry of a caller-supplied list into one CloneContext, and rewrite_refs visits the copies through the map `{lossy[0]}` (original -> copy): when the list names the same instance twice, or an instance together with one of its descendants, the later copy replaces the earlier one in the map and the earlier copy (with its subtree) is never visited — its Ref properties keep the referents of the source DOM (dangling, not nulled, not pointing to any copy)", core.loc(repeated), instance=inst)
+        else:
+            c.ok(R, inst)
         ctx = [n for n in core.walk_fn(f) if n.get("k") == "Call" and "CloneContext" in (core.callee(n) or "") and (core.callee(n) or "").endswith("default")]
         in_loop = False
         for n in core.walk_fn(f):
